@@ -19,17 +19,9 @@ ASSUMPTIONS = [
     "determine it, the oracle is silent there and the model mirrors the code",
 ]
 PARTIAL = [
-    "sumDecomposition_unique: any list of non-empty sum-indecomposable permutations whose direct sum is p equals "
-    "sum_decomposition(p) (proved instead: re-assembly, indecomposable parts, finest = every cut is a part boundary); "
-    "same for skew - oracle (finest split) + correspondence only",
-    "skewDecomposition_via_complement: skew_decomposition(p) = [complement(c) for c in sum_decomposition(complement(p))] "
-    "- evaluated by op law_dec, not proved (the skew theorems are proved directly instead)",
-    "monoBlocks_left_maximal: runs of monotone_block_decomposition cannot be extended to the left either (proved: "
-    "partition into runs that cannot be extended to the right, with_ones=False = filter) - oracle (maximal runs) only",
-    "children_eq_contained: children(p) = {q : |q| = n-1 and p contains q} (Tier B) - proved only as the set of "
-    "one-point deletions; oracle uses all (n-1)-subsets",
-    "sortDedup_sorted: the model lists children/coveredby/blockpats sorted without duplicates (only membership is proved; "
-    "Python returns an unordered list(set(...)), compared after sorting)",
+    # the five former entries (sumDecomposition_unique + skew analogue, skewDecomposition_via_complement,
+    # children_eq_contained + coveredby_eq_containing, monoBlocks_left_maximal, sortDedup_sorted) are now
+    # theorems of Props/C10.lean
 ]
 TRUSTED = []
 
